@@ -740,7 +740,14 @@ pub fn gen_cert(r: &mut Rng, sw: &Swarm) -> CertRecipe {
     };
     let sans = if sw.sans {
         let n = if sw.big && r.chance(1, 3) { r.range(20, 120) } else { r.range(0, 5) };
-        (0..n).map(|_| gen_san(r)).collect()
+        let mut v: Vec<SanR> = (0..n).map(|_| gen_san(r)).collect();
+        // the same name listed twice is valid input (and what de-duplication logic trips over)
+        if v.len() >= 2 && r.chance(1, 6) {
+            let d = v[r.usize(v.len())].clone();
+            let at = r.usize(v.len() + 1);
+            v.insert(at, d);
+        }
+        v
     } else {
         vec![]
     };
@@ -850,7 +857,30 @@ pub fn gen_attrs(r: &mut Rng) -> Vec<AttrR> {
     (0..r.range(0, 2)).map(|_| AttrR { oid_idx: r.below(3) as u8, text: s_from(r, PRINTABLE, 0, 20) }).collect()
 }
 
+/// OIDs that x509-parser's decoder does not give back as they went in: arcs 2.40 and up come
+/// back as "3.x", and an encoding starting with a zero octet (0.0...) comes back too short.
+pub fn beyond_2_39(o: &[u64]) -> bool {
+    o.len() >= 2 && ((o[0] == 2 && o[1] >= 40) || (o[0] == 0 && o[1] == 0))
+}
+
+impl DnRecipe {
+    fn has_oid_beyond_2_39(&self) -> bool {
+        self.0.iter().any(|(t, _)| matches!(t, DnTypeR::Custom(o) if beyond_2_39(o)))
+    }
+}
+
 impl CertRecipe {
+    /// True when the certificate carries an OID with first arc 2 and second arc >= 40 in a
+    /// place that `from_ca_cert_der` reads back (name, otherName SAN, directoryName constraint):
+    /// x509-parser's decoder turns those into "3.x" and rcgen cannot re-encode them (DESIGN §8).
+    pub fn not_importable(&self) -> bool {
+        self.dn.has_oid_beyond_2_39()
+            || self.sans.iter().any(|s| matches!(s, SanR::Other(o, _) if beyond_2_39(o)))
+            || self.name_constraints.as_ref().map_or(false, |(a, b)| {
+                a.iter().chain(b.iter()).any(|t| matches!(t, SubtreeR::Dir(d) if d.has_oid_beyond_2_39()))
+            })
+    }
+
     /// The simplest recipe every build accepts; used by the minimiser.
     pub fn minimal() -> CertRecipe {
         CertRecipe {
